@@ -170,10 +170,18 @@ def tasks():
     from spec import cvss4_spec as S4
 
     rng = random.Random(C.seed())
-    n = 8 if C.tier() == "quick" else 600
     # only (fork, step) cases in which the step can start inside the macrovector
     cases = [(f, st) for f in forks for st in steps if step_feasible(f, st[0], st[1])]
-    for f, st in rng.sample(cases, n):
+    # stratified: a step of E always crosses into another macrovector (EQ5 has the single metric
+    # E), which is where a changed table entry or gap term shows; the thorough tier runs ALL of
+    # those cases plus a seeded sample of the others, the quick tier half of its few from them
+    ecases = [c for c in cases if c[1][0] == "E"]
+    others = [c for c in cases if c[1][0] != "E"]
+    if C.tier() == "quick":
+        picked = rng.sample(ecases, 4) + rng.sample(others, 4)
+    else:
+        picked = ecases + rng.sample(others, 450)
+    for f, st in picked:
         d4s = None
         if S4.EQ4_DEPTH[f[3]] * S4.EQ36_DEPTH[(f[2], f[5])] >= 35:
             d4s = list(range(0, S4.EQ4_DEPTH[f[3]] + 3))
@@ -184,8 +192,8 @@ def tasks():
 
 def bounds():
     if C.tier() == "quick":
-        return ["v4: the table lemma on all 270 lookup entries (complete); product execution only for a seeded sample of 8 (macrovector fork, metric step) cases of the feasible ones among 270 x 31 (large macrovectors further restricted to one value of the EQ4 severity distance) - one such run costs minutes in this engine, so complete v4 coverage by product execution is NOT claimed"]
-    return ["v4: the table lemma on all 270 lookup entries (complete); product execution for a seeded sample of 600 (macrovector fork, metric step) cases of the feasible ones among 270 x 31 (large macrovectors further restricted to one value of the EQ4 severity distance): complete v4 coverage by product execution is NOT claimed"]
+        return ["v4: the table lemma on all 270 lookup entries (complete); product execution only for a seeded sample of 8 (macrovector fork, metric step) cases (4 steps of E, 4 of other metrics) of the feasible ones among 270 x 31 (large macrovectors further restricted to one value of the EQ4 severity distance) - one such run costs minutes in this engine, so complete v4 coverage by product execution is NOT claimed"]
+    return ["v4: the table lemma on all 270 lookup entries (complete); product execution for ALL feasible (macrovector fork, step of E) cases - a step of E always crosses into another macrovector - and a seeded sample of 450 of the feasible cases of the other metrics among 270 x 31 (large macrovectors further restricted to one value of the EQ4 severity distance): complete v4 coverage by product execution is NOT claimed"]
 
 
 def outside():
